@@ -129,6 +129,7 @@ def run_shard(desc):
                     sh.borderline += 1
                     continue
                 g1 = np.dot(UB, h1); g2 = np.dot(UB, h2)
+                g1_in, g2_in, B_in = g1.copy(), g2.copy(), np.array(uc.B, float).copy()
                 mult = int(np.searchsorted(flat, c + 5e-9) - np.searchsorted(flat, c - 5e-9))
                 case = {"lattice": li, "cell": cell, "sym": sym, "rot": ri, "ring1": r1, "ring2": r2, "h1": list(h1), "h2": list(h2),
                         "seed": seed_of()}
@@ -197,6 +198,11 @@ def run_shard(desc):
                 sh.evaluations += 1
                 if mult >= 4:
                     sh.nontrivial += 1
+                # none of these calls may write into the caller's g-vectors or into the cell's B matrix
+                if not (np.array_equal(g1, g1_in) and np.array_equal(g2, g2_in) and np.array_equal(np.array(uc.B, float), B_in)):
+                    sh.violation("orient:modifies-the-g-vectors-it-is-given-or-the-B-matrix", case,
+                                 {"g_changed": not (np.array_equal(g1, g1_in) and np.array_equal(g2, g2_in))})
+                    g1[...] = g1_in; g2[...] = g2_in
                 # history: a candidate list the caller kept from an earlier call is not rewritten by later calls on the same object
                 if kept is not None and any(not np.array_equal(a, b) for a, b in zip(kept, kept_copy)):
                     sh.violation("orient:candidate-list-from-an-earlier-call-was-overwritten-by-later-calls", dict(case, crange=0.004), {"n": len(kept)})
